@@ -285,7 +285,7 @@ def run_sync(sc):
     rnd = RandShim(log)
     old_random, client_mod.random = client_mod.random, rnd
     old_osh = base_client.original_signal_handler
-    effects, events = [], []
+    effects, events, pre = [], [], []
     def do_event(ev):
         k = ev[0]
         if k == 'connect':
@@ -319,7 +319,8 @@ def run_sync(sc):
             if ev[1] < len(live):
                 fake.next_outcome = ev[2]
                 rnd.queue = [num(ev[3])]
-                if ev[4]:
+                if ev[4] and not client.connected:
+                    # switch point: the first logger call after THIS attempt made the client connected
                     def hook():
                         if client.connected and not fired[0]:
                             fired[0] = True
@@ -338,6 +339,8 @@ def run_sync(sc):
             start = len(log)
             fake.ticks = 0
             stop = False
+            t = client._reconnect_task
+            pre.append('none' if t is None else 'stale' if getattr(t, 'done', False) else 'live')
             try:
                 do_event(ev)
             except Runaway:
@@ -356,7 +359,7 @@ def run_sync(sc):
         fake.kill()
         while client in base_client.reconnecting_clients:
             base_client.reconnecting_clients.remove(client)
-    return {'events': events, 'effects': effects, 'final': final}
+    return {'events': events, 'effects': effects, 'final': final, 'pre': pre}
 
 
 async def _run_async(sc):
@@ -373,7 +376,7 @@ async def _run_async(sc):
     old_random, client_mod.random = client_mod.random, rnd
     old_asyncio, client_mod.asyncio = client_mod.asyncio, AsyncioShim(fake)
     old_osh = base_client.original_signal_handler
-    effects, events = [], []
+    effects, events, pre = [], [], []
     async def do_event(ev):
         k = ev[0]
         if k == 'connect':
@@ -418,6 +421,8 @@ async def _run_async(sc):
             start = len(log)
             fake.ticks = 0
             stop = False
+            t = client._reconnect_task
+            pre.append('none' if t is None else 'stale' if (hasattr(t, 'done') and t.done()) else 'live')
             try:
                 await do_event(ev)
             except Runaway:
@@ -437,7 +442,7 @@ async def _run_async(sc):
         await fake.kill()
         while client in base_client.reconnecting_clients:
             base_client.reconnecting_clients.remove(client)
-    return {'events': events, 'effects': effects, 'final': final}
+    return {'events': events, 'effects': effects, 'final': final, 'pre': pre}
 
 
 def run_async_many(scs):
@@ -469,19 +474,12 @@ def classify(sc, kind, obs, code):
             if sc['params']['reconnection'] and ('lost',) in es and not live:
                 if ev[0] == 'timeout' and ev[4] and had:
                     return SIG_WINDOW, i
-                if ev[0] == 'loss' and probe_stale_before(sc, kind, i):
+                if ev[0] == 'loss' and obs['pre'][i] == 'stale':
                     return SIG_STALE, i
                 return 'no-effort-after-accidental-loss', i
     names = {2: 'delay', 3: 'attempts', 4: 'only-accidental', 5: 'abort', 6: 'single-effort', 7: 'same-parameters',
              8: 'retry'}
     return 'c10-' + '+'.join(names[c] for c in clauses or [8]), None
-
-
-def probe_stale_before(sc, kind, i):
-    """Re-run the prefix before event i and look at _reconnect_task on the real client."""
-    pre = dict(sc, events=sc['events'][:i])
-    o = run_one(pre, kind)
-    return o['final']['rtask'] is not None and o['final']['rtask'] not in o['final']['live']
 
 
 def run_one(sc, kind):
@@ -804,7 +802,9 @@ def run(chk):
         rep = {'client': kind, 'scenario': sc, 'fixed': fixed_of[kind], 'code': code}
         if code & 2:
             sig, at = classify(sc, kind, obs, code)
-            if sig not in (SIG_STALE, SIG_WINDOW) or code & 1:
+            if code & 1:            # the model does not explain this run: not the known finding
+                sig += '-outside-model'
+            if sig not in (SIG_STALE, SIG_WINDOW):
                 new_failing_input = True
             chk.violation(sig, 'the real %s violates C10 (clauses %s) at event %s of the history' % (
                 'Client' if kind == 'sync' else 'AsyncClient',
